@@ -434,6 +434,14 @@ def c18(cx):
     items = programs(cx, n)
     for it in items:
         it['modes'] = MODES; it['c18'] = True; it['filters'] = ["^0 -> 1", "2", " -> 3 -> "]
+    # a contract with more than ten blocks and several paths: in the notation `0 -> 4 -> 10 -> 11` a blank next to a number is how
+    # one says "block 1, not 10 / 11 / 12" - patterns with leading / trailing blanks must reach the matcher as written
+    ladder = ["#pragma version 8"]
+    for k in range(6):
+        ladder += [f"load {k % 3}", f"bnz step{k}", "int 1", "return", f"step{k}:"]
+    ladder += ["int 1", "return"]
+    items.append({'name': 'c18:ladder', 'src': "\n".join(ladder) + "\n", 'modes': [], 'c18': True,
+                  'filters': [" 1 ", "1 ", " 1$", "^0 ", " -> 1 ", "> 1$", "3 -"]})
     res = run_all(items)
     checks = 0
     for r in res:
